@@ -139,6 +139,12 @@ def work_plain(cases, seed, res):
         compare(res, "explicit", {"call": eq, "shapes": shapes},
                 lambda: ctg.einsum(eq, *arrays, cache_expression=False),
                 lambda: np.einsum(eq, *arrays), e2)
+        # an ellipsis in the OUTPUT only (it stands for zero dimensions)
+        eq_oe = lhs + "->..." + "".join(output)
+        compare(res, "explicit-output-only-ellipsis",
+                {"call": eq_oe, "shapes": shapes},
+                lambda: ctg.einsum(eq_oe, *arrays, cache_expression=False),
+                lambda: np.einsum(eq_oe, *arrays), e2)
         # implicit output (only once per lhs: when output is the first one)
         if output == ():
             compare(res, "implicit", {"call": lhs, "shapes": shapes},
@@ -356,6 +362,25 @@ def work_stretch(cases, seed, res):
             lhs = ",".join("..." + t for t in lhs_terms)
             for eq in (lhs + "->..." + "".join(output),):
                 compare(res, "ellipsis-stretch",
+                        {"call": eq, "shapes": shapes},
+                        lambda: ctg.einsum(eq, *arrays,
+                                           cache_expression=False),
+                        lambda: np.einsum(eq, *arrays))
+        # the same stretching for a NAMED index: one of the operands that
+        # carry it has size 1 there, the others size n
+        for ix in inds:
+            carriers = [k for k, t in enumerate(inputs) if ix in t]
+            if len(carriers) < 2 or sd[ix] == 1:
+                continue
+            for small in carriers:
+                shapes = [tuple(1 if (jx == ix and k == small) else sd[jx]
+                                for jx in t) for k, t in enumerate(inputs)]
+                arrays = [ref.make_arrays([tuple(range(len(s)))],
+                                          dict(enumerate(s)),
+                                          f"{seed}-{i}")[0]
+                          for i, s in enumerate(shapes)]
+                eq = ",".join(lhs_terms) + "->" + "".join(output)
+                compare(res, "label-stretch",
                         {"call": eq, "shapes": shapes},
                         lambda: ctg.einsum(eq, *arrays,
                                            cache_expression=False),
